@@ -373,6 +373,12 @@ pub fn write_replay(ctx: &Ctx, f: &Failure) -> String {
     path
 }
 
+pub struct Report {
+    pub stats: Stats,
+    pub failure: Option<Failure>,
+    pub info: PartInfo<'static>,
+}
+
 pub struct PartInfo<'a> {
     pub level: &'a str,
     pub rule: &'a str,
